@@ -131,3 +131,56 @@ def commit_type_history(model, payload):
                 if bad:
                     return {"reproduced": True, "detail": "[%s] %s" % (tag, bad), "inputs": {"history": tag}}
     return {"reproduced": False, "detail": "81 commit-type histories x 3 key sequences satisfy the postcondition of each commit"}
+
+
+def blob_ops(model, payload):
+    """DBFSStore.store_blob / fetch_blob / has_blob on a fake dbutils: the codec selected (by type, or the reference
+    given) writes the blob, the metadata names its reference and is written last, nothing else is written, a fetch
+    returns the value; an unregistered reference is a DDS error before anything is written; absent key -> None"""
+    import json
+    from dds.codecs.databricks import DBFSStore, DBFSURI, CommitType
+    from dds.structures import DDSException
+
+    cases = [("text é\n", None, "local.string"), (b"\x00raw", None, "local.bytes"), ({"a": [1]}, None, "local.pickle"), (None, None, "local.pickle"),
+             ("text", "local.pickle", "local.pickle"), (b"b", "local.pickle", "local.pickle"), ("text", "local.string", "local.string"), (b"zz", "local.bytes", "local.bytes")]
+    for v, ref, want in cases:
+        db = FakeDbutils()
+        st = DBFSStore(DBFSURI.parse("dbfs:/int"), DBFSURI.parse("dbfs:/data"), db, CommitType.FULL)
+        order = []
+        real_put, real_cp = db.fs.put, db.fs.cp
+        db.fs.put = lambda p, b, overwrite=False: (order.append(("put", p)), real_put(p, b, overwrite))[1]
+        db.fs.cp = lambda s, d, recurse=False: (order.append(("cp", d)), real_cp(s, d, recurse))[1]
+        tag = "store_blob('k', %r, %r)" % (v, ref)
+        if st.has_blob("k") or st.fetch_blob("k") is not None:
+            return {"reproduced": True, "detail": "%s: the key is present before it is stored" % tag, "inputs": {"value": repr(v), "codec": ref}}
+        try:
+            st.store_blob("k", v, ref)
+        except BaseException as e:
+            return {"reproduced": True, "detail": "%s raised %s: %s" % (tag, type(e).__name__, e), "inputs": {"value": repr(v), "codec": ref}}
+        files = db.fs.files
+        if set(files) != {"dbfs:/int/blobs/k", "dbfs:/int/blobs/k.meta"}:
+            return {"reproduced": True, "detail": "%s wrote %s" % (tag, sorted(files)), "inputs": {"value": repr(v), "codec": ref}}
+        meta = json.loads(files["dbfs:/int/blobs/k.meta"])
+        if meta.get("protocol") != want:
+            return {"reproduced": True, "detail": "%s: the metadata names %r, the codec selected for the call is %r" % (tag, meta.get("protocol"), want), "inputs": {"value": repr(v), "codec": ref}}
+        if [o for o in order if o[1].startswith("dbfs:")][-1][1] != "dbfs:/int/blobs/k.meta":
+            return {"reproduced": True, "detail": "%s: the metadata is not the last object written: %s" % (tag, order), "inputs": {"value": repr(v), "codec": ref}}
+        got = st.fetch_blob("k")
+        if got != v or not st.has_blob("k"):
+            return {"reproduced": True, "detail": "%s: fetch_blob -> %r, has_blob -> %r" % (tag, got, st.has_blob("k")), "inputs": {"value": repr(v), "codec": ref}}
+        if set(db.fs.files) != {"dbfs:/int/blobs/k", "dbfs:/int/blobs/k.meta"}:
+            return {"reproduced": True, "detail": "%s: fetch_blob / has_blob wrote to DBFS: %s" % (tag, sorted(db.fs.files)), "inputs": {"value": repr(v), "codec": ref}}
+    db = FakeDbutils()
+    st = DBFSStore(DBFSURI.parse("dbfs:/int"), DBFSURI.parse("dbfs:/data"), db, CommitType.FULL)
+    try:
+        st.store_blob("k", "v", "no.such.codec")
+        return {"reproduced": True, "detail": "store_blob with an unregistered codec reference succeeded", "inputs": {"codec": "no.such.codec"}}
+    except DDSException:
+        if db.fs.files:
+            return {"reproduced": True, "detail": "store_blob with an unregistered codec reference wrote %s before failing" % sorted(db.fs.files), "inputs": {"codec": "no.such.codec"}}
+    except BaseException as e:
+        return {"reproduced": True, "detail": "store_blob with an unregistered codec reference raised %s" % type(e).__name__, "inputs": {"codec": "no.such.codec"}}
+    r = alias_kinds(model, payload)
+    if r.get("reproduced"):
+        return r
+    return {"reproduced": False, "detail": "store / fetch / presence behave as specified for %d (value, reference) cases, an unregistered reference and the legacy aliases" % len(cases)}
